@@ -879,6 +879,109 @@ def job_probe(cfg):
     return res
 
 
+# ------------------------------------------------------------------------------------------------ commit discipline of Simulations.InElastic
+def job_simu(cfg):
+    """`Simulations.InElastic` with a Maxwell material (internal variables, linear local and global problems: the real global Newton ends after
+    two iterations) and SYMBOLIC load amplitudes: only `Save_Iter` advances the history; `Set_Iter(i)` followed by `Save_Iter()` stores the
+    state of iteration i; a solve that is not saved leaves no trace in the next step."""
+    from EasyFEA import Simulations
+    from engine import stubs
+    from checks import simlib
+
+    res = JobResult(cfg)
+    c = new_context()
+    facade.install()
+    mode = cfg["mode"]
+    dim, ps = mode_args(mode)
+    el = elastic_law("iso")
+    scale = Fraction(float(np.abs(el.C).max()))
+    L = [c.var(f"L{i}", -1, 1, shadow=Fraction(2 * i + 1, 7) * (-1) ** i) for i in range(3)]
+    res.symbols = 3
+    label = f"InElastic simulation (Maxwell, {mode}) {cfg['seq']}"
+    res.functions |= {"Simulations.InElastic.Construct_local_matrix_system", "InElastic.Save_Iter", "InElastic.Set_Iter", "InElastic.__Get_state", "_Simu._Solver_Solve_Newton_Raphson", "_Simu.Solve", "_Simu.Get_results",
+                      "Behavior.Integrate", "Operators.Bilinear.LinearizedElasticity", "Operators.Linear.InternalForce"}
+
+    def mk():
+        mesh = simlib.small_mesh("tri4" if dim == 2 else "tetra2")
+        b = make_behavior({}, el, dim, ps, "auto", g=[0.25], tau=[2.0])
+        simu = Simulations.InElastic(mesh, b, verbosity=False)
+        simu.dt = 0.5
+        return simu
+
+    def step(simu, amp):
+        simu.Bc_Init()
+        if dim == 2:
+            simu.add_dirichlet(np.array([0]), [0, 0], ["x", "y"])
+            simu.add_dirichlet(np.array([3]), [0], ["x"])
+            simu.add_neumann(np.array([2]), [amp], ["x"])
+        else:
+            simu.add_dirichlet(np.array([0]), [0, 0, 0], ["x", "y", "z"])
+            simu.add_dirichlet(np.array([1]), [0, 0], ["y", "z"])
+            simu.add_dirichlet(np.array([2]), [0], ["z"])
+            simu.add_neumann(np.array([simu.mesh.Nn - 1]), [amp], ["x"])
+        simu.Solve()
+
+    def state_of(simu, i):
+        r = simu.Get_results(i)
+        return np.concatenate([np.asarray(r["displacement"], dtype=object).reshape(-1)] + [np.asarray(a, dtype=object).reshape(-1) for _, a in sorted(r["state"].items(), key=lambda kv: str(kv[0]))])
+
+    def run(amps, symbolic):
+        """returns (pairs of vectors that must be equal, labels)"""
+        import contextlib, io
+
+        with contextlib.redirect_stdout(io.StringIO()):  # the global Newton loop prints its progress unconditionally
+            return _run(amps)
+
+    def _run(amps):
+        pairs = []
+        if cfg["seq"] == "restore-save":
+            s = mk()
+            step(s, amps[0]); s.Save_Iter()
+            step(s, amps[1]); s.Save_Iter()
+            s.Set_Iter(0)
+            s.Save_Iter()
+            pairs.append((state_of(s, 2), state_of(s, 0), "Set_Iter(0); Save_Iter() stores the state of iteration 0"))
+            step(s, amps[2]); s.Save_Iter()
+            f = mk()
+            step(f, amps[0]); f.Save_Iter()
+            step(f, amps[2]); f.Save_Iter()
+            pairs.append((state_of(s, 3), state_of(f, 1), "a step after Set_Iter(0); Save_Iter() = the same step on a simulation that never went further"))
+        else:  # unsaved solve
+            s = mk()
+            step(s, amps[0]); s.Save_Iter()
+            before = state_of(s, 0).copy()
+            step(s, amps[1])  # not saved
+            pairs.append((state_of(s, 0), before, "a solve does not change the stored iteration"))
+            step(s, amps[2]); s.Save_Iter()
+            f = mk()
+            step(f, amps[0]); f.Save_Iter()
+            step(f, amps[2]); f.Save_Iter()
+            pairs.append((state_of(s, 1), state_of(f, 1), "a solve that was not saved leaves no trace in the next saved step"))
+        return pairs
+
+    def replay(env):
+        amps = [fval(c, env, x) for x in L]
+        pairs = run(amps, False)
+        errs = {lab: float(np.abs(np.asarray(a, dtype=float) - np.asarray(b_, dtype=float)).max()) for a, b_, lab in pairs}
+        return any(v > 1e-9 for v in errs.values()), {"load_amplitudes": amps, **errs}
+
+    if preflight(res, c, replay, label):
+        return res
+    mark = c.mark()
+    with facade.symbolic(), stubs.ideal_linear_solver():
+        pairs = run(L, True)
+    pcs = c.pc_since(mark)
+    res.paths, res.path_conditions = 1, len(pcs)
+    for a, b_, lab in pairs:
+        record_entries(res, f"{label}: {lab}", a, b_, pcs, replay, TOL, key=f"{label}: {lab}",
+                       sample={"obligation": f"{lab}: displacement and internal variables agree entrywise (|.| <= 1e-9) for all load amplitudes", "entries": int(np.asarray(a).size)})
+    o = prove_abs_le(as_sym(pairs[-1][0][-1]) - 2 * as_sym(pairs[-1][1][-1]), TOL, pcs, "twin")
+    res.twin(f"{label} twin", o.status == "cex")
+    res.stubs |= facade.USED_STUBS
+    res.stubs.add("linear solver of the global Newton iterations -> ideal solver (exact elimination)")
+    return res
+
+
 class _Budget(Exception):
     pass
 
@@ -894,7 +997,7 @@ def job(cfg):
     old = signal.signal(signal.SIGALRM, on_alarm)
     signal.alarm(JOB_BUDGET_S)
     try:
-        return {"elastic": job_elastic, "inactive": job_inactive, "maxwell": job_maxwell, "spectral": job_spectral, "probe": job_probe}[cfg["kind"]](cfg)
+        return {"elastic": job_elastic, "inactive": job_inactive, "maxwell": job_maxwell, "spectral": job_spectral, "probe": job_probe, "simu": job_simu}[cfg["kind"]](cfg)
     except _Budget:
         res = JobResult(cfg)
         res.inconclusive.append({"label": "job budget", "detail": f"symbolic run not finished after {JOB_BUDGET_S} s"})
@@ -946,6 +1049,9 @@ def main():
         configs.append({"kind": "spectral", "law": "iso", "mode": "3D", "surface": "hill", "side": 1})
         configs.append({"kind": "spectral", "law": "ti", "mode": "3D", "surface": "vm", "side": 1})
         configs.append({"kind": "spectral", "law": "iso", "mode": "pstrain", "surface": "vm", "side": 1, "symbolic_epsP": True})
+    for seq in ("restore-save", "unsaved-solve"):
+        for mode in (["pstrain", "pstress"] if tier == "quick" else ["pstrain", "pstress", "3D"]):
+            configs.append({"kind": "simu", "mode": mode, "seq": seq})
     probes = [("vm", "linear", None, "auto"), ("vm", "linear", "af", "auto"), ("hill", "linear", None, "auto"), ("dp", "linear", None, "newton")]
     for surf, hard, kin, solver in probes:
         for mode in (modes if tier == "thorough" or surf == "vm" else ["pstress"]):
